@@ -146,6 +146,7 @@ CONF_UPDATE_HOOK(iauth_class_conf_changed)
     struct iauth_class_rule *rule;
     struct conf_node_base *base;
     struct conf_node_object *obj;
+    const char *class;
     const char *val;
     struct set_node *it;
     unsigned int n_rules;
@@ -164,10 +165,20 @@ CONF_UPDATE_HOOK(iauth_class_conf_changed)
         obj = set_node_data(it);
         obj->base.hook = iauth_class_rule_changed;
 
+        /* The class (by default, the rule's name) is sent as one word
+         * of the verdict, and the name within a statistics line. */
+        class = iauth_class_rule_item(obj, "class");
+        val = class ? class : obj->base.name;
+        if ((val[0] == '\0') || strpbrk(val, " \t\r\n") || strpbrk(obj->base.name, "\r\n")) {
+            log_message(iauth_class_log, LOG_WARNING, "Ignoring rule %.*s: its class must be a single word.",
+                        (int)strcspn(obj->base.name, "\r\n"), obj->base.name);
+            continue;
+        }
+
         /* Load the new rule. */
         rule = &new_rules.vec[new_rules.used];
         rule->name = xstrdup(obj->base.name);
-        rule->class = xstrdup(iauth_class_rule_item(obj, "class"));
+        rule->class = xstrdup(class);
         rule->account = xstrdup(iauth_class_rule_item(obj, "account"));
         val = iauth_class_rule_item(obj, "address");
         if (val && !irc_pton(&rule->address, &rule->address_bits, val, 0)) {
